@@ -307,6 +307,9 @@ type c31ReadResult struct {
 	touched  bool
 	reads    int
 	stuck    bool
+	panicked string
+	// the read that returned the terminating error also stored something in buf[:n]
+	wroteWithErr bool
 }
 
 func c31Drain(rd io.Reader, pattern []int, limit int) (res c31ReadResult) {
@@ -321,7 +324,11 @@ func c31Drain(rd io.Reader, pattern []int, limit int) (res c31ReadResult) {
 		for j := range buf {
 			buf[j] = c31Sentinel
 		}
-		n, err := rd.Read(buf)
+		var n int
+		var err error
+		if res.panicked = ev.Catch(func() { n, err = rd.Read(buf) }); res.panicked != "" {
+			return
+		}
 		res.reads++
 		if n > len(buf) {
 			if res.overN == 0 {
@@ -336,6 +343,11 @@ func c31Drain(rd io.Reader, pattern []int, limit int) (res c31ReadResult) {
 		if err != nil {
 			res.err = err
 			res.nWithErr = n
+			for _, x := range buf[:n] {
+				if x != c31Sentinel {
+					res.wroteWithErr = true
+				}
+			}
 			for _, x := range buf[n:] {
 				if x != c31Sentinel {
 					res.touched = true
@@ -387,6 +399,8 @@ func c31StreamVerdict(r *ev.Run, c *c31Case, dir string, want []byte, res c31Rea
 		r.Violation(sig, fmt.Sprintf(f, a...)+"; dir="+dir+" case="+c.String(), c)
 	}
 	switch {
+	case res.panicked != "":
+		viol("stream:Read-panic", "Read panicked on an intact wire: %s", res.panicked)
 	case res.overN > 0:
 		// Read reported more bytes than the buffer holds: the io.Reader contract is broken and
 		// the rest of the decrypted frame is gone (the loss below is the same event)
@@ -483,9 +497,9 @@ func c31CheckSizes(r *ev.Run, st *c31Stats, c *c31Case) {
 		res := c31Drain(l.c2, c.Reads, limit)
 		got12 = append(got12, res.got...)
 		res.got = got12
-		if res.overN > 0 || res.stuck || res.err != io.EOF || i == len(w12)-1 {
+		if res.panicked != "" || res.overN > 0 || res.stuck || res.err != io.EOF || i == len(w12)-1 {
 			c31StreamVerdict(r, c, "1->2", c31Data[0][:o1], res)
-			if res.overN > 0 || res.stuck || res.err != io.EOF {
+			if res.panicked != "" || res.overN > 0 || res.stuck || res.err != io.EOF {
 				return
 			}
 		}
@@ -497,9 +511,9 @@ func c31CheckSizes(r *ev.Run, st *c31Stats, c *c31Case) {
 		res = c31Drain(l.c1, c.Reads, limit)
 		got21 = append(got21, res.got...)
 		res.got = got21
-		if res.overN > 0 || res.stuck || res.err != io.EOF || i == len(w12)-1 {
+		if res.panicked != "" || res.overN > 0 || res.stuck || res.err != io.EOF || i == len(w12)-1 {
 			c31StreamVerdict(r, c, "2->1", c31Data[1][:o2], res)
-			if res.overN > 0 || res.stuck || res.err != io.EOF {
+			if res.panicked != "" || res.overN > 0 || res.stuck || res.err != io.EOF {
 				return
 			}
 		}
@@ -646,6 +660,10 @@ func c31TamperVerdict(r *ev.Run, st *c31Stats, c *c31Case, want []byte, safe int
 	viol := func(sig, f string, a ...interface{}) {
 		r.Violation(sig, fmt.Sprintf(f, a...)+"; case="+c.String(), c)
 	}
+	if res.panicked != "" {
+		viol("tamper:Read-panic:"+c.Mut+"/"+c.Pos, "Read panicked: %s", res.panicked)
+		return
+	}
 	if res.overN > 0 {
 		viol("SecureAead.Read:n>len(b)-frame-tail-dropped", "Read(buf of %d) returned %d", res.overBuf, res.overN)
 		return
@@ -665,6 +683,9 @@ func c31TamperVerdict(r *ev.Run, st *c31Stats, c *c31Case, want []byte, safe int
 	isPrefix := len(res.got) <= len(want) && bytes.Equal(res.got, want[:len(res.got)])
 	if len(res.got) > bound || !isPrefix {
 		switch {
+		case res.nWithErr > 0 && res.wroteWithErr && res.err != io.EOF:
+			viol("tamper:rejected-frame-bytes-stored-in-buffer:"+c.Mut+"/"+c.Pos,
+				"Read returned n=%d with err=%v and had stored bytes of the rejected frame in the caller's buffer", res.nWithErr, res.err)
 		case res.nWithErr > 0:
 			// bytes reported together with the terminating error are delivered bytes (io.Reader contract)
 			viol("SecureAead.Read:n>0-with-error",
